@@ -414,7 +414,7 @@ def run(ctx):
         lo, hi = c20gen.COST_N[cost]
         # every cycle at several repeat counts across the range 50..5000 (quick: 50..~600); N varies a little with the seed
         sizes = [50, lo] if quick else [50, lo, hi]
-        if cost == "matrix":
+        if cost in c20gen.SINGLE_SIZE:
             sizes = [lo] if quick else [lo, hi]
         for si, n in enumerate(sizes):
             n = n + ctx.rng.fork("n/%s/%d" % (name, si)).below(max(1, n // 4))
